@@ -266,6 +266,7 @@ def run(prog, chk):
     formatted_length(prog, chk, fs)
     join_alternation(prog, chk, "C06.i")
     detach_precondition(prog, chk, "C06.j", fs)
+    raw_text_to_nul_readers(prog, chk, "C06.k", fs)
 
 
 def formatted_length(prog, chk, fs):
@@ -441,3 +442,138 @@ def detach_precondition(prog, chk, rid, fs):
                 chk.bad(rid, f, "detach-copies-more-than-it-allocates", f.where(c),
                         "detach(%s, %s): nothing establishes %s <= %s here; detach allocates minCapacity characters and copies copyLength of them "
                         "(for a literal, attached or shared String capacity() is 0, so a test against capacity() says nothing about the length)" % (A[:40], B[:50], A[:30], B[:30]))
+
+
+LIBC_NUL_SCANNERS = {"strlen", "strcmp", "strcasecmp", "strstr", "strcasestr", "strchr", "strrchr", "strpbrk", "strspn", "strcspn", "atoi", "atol",
+                     "atoll", "strtol", "strtoul", "strtoll", "strtoull", "strtod", "strtof", "atof", "sscanf", "vsscanf", "strdup", "strcpy", "strcat"}
+
+
+def _nul_tested_names(f):
+    """names of pointer variables whose pointee is tested for zero in a branch condition of f (`*p`, `!*p`, `*p == 0`, `*p == *q` with a
+    NUL exit) - the variable is walked to the terminator"""
+    out = set()
+    for b in f.blocks.values():
+        c = b.get("cond")
+        if c is None:
+            continue
+        for an, _t in q.cond_atoms(f, c, True):
+            cn = fin._canon(f, an, True)
+            ks = [cn[1]] if cn[0] == "val" else ([cn[0], cn[2]] if cn[1] in ("==", "!=") and ("0" in (cn[0], cn[2]) or "'\\0'" in (cn[0], cn[2])) else [])
+            for k in ks:
+                m = re.match(r"^\*\(?(\w+)\)?(\+\+)?$", k.replace(" ", ""))
+                if m:
+                    out.add(m.group(1))
+    return out
+
+
+def _nul_scanned_params(prog):
+    """{callee qualified name: set of parameter indices the callee walks to the NUL terminator} for the functions of the program"""
+    out = {}
+    for g in prog.functions.values():
+        if not g.blocks or not g.params:
+            continue
+        tested = _nul_tested_names(g)
+        if not tested:
+            continue
+        defs = q.local_defs(g)
+        idx = set()
+        for k, prm in enumerate(g.params):
+            if "char" not in prm.get("t", "") or "*" not in prm.get("t", ""):
+                continue
+            names = {prm["n"]}
+            for did, dl in defs.items():
+                for kind, nd, init in dl:
+                    if init is not None and kind == "decl" and re.match(r"^%s\b" % re.escape(prm["n"]), q.no_casts(g.r(init)).lstrip("(")):
+                        for n_ in g.nodes:
+                            if n_["k"] == "DeclRefExpr" and n_["ref"].get("id") == did:
+                                names.add(n_["ref"]["n"])
+                                break
+            if names & tested:
+                idx.add(k)
+        if idx:
+            out.setdefault(g.name, set()).update(idx)
+            out.setdefault(g.gname, set()).update(idx)
+    return out
+
+
+def raw_text_to_nul_readers(prog, chk, rid, fs):
+    """The text pointer of a payload (`data->str`) is NUL-terminated at `len` only for owned blocks; attached text need not be.  Code that
+    walks text to the terminator must get it through the C-string view (which terminates) or after detach() - never the raw pointer."""
+    chk.rule(rid, "DOM/WHO: a raw text pointer (`<payload>->str`) reaches a reader that runs to the NUL terminator (libc string scanners, "
+                  "program functions that test `*p` of that parameter, local loops testing `*p`) only after detach() on this String; the "
+                  "raw text of another String never does", floor=0)
+    scanned = _nul_scanned_params(prog)
+    seen_sources = 0
+    for f in fs:
+        if f.short in ("operator const char *", "operator char *", "detach"):
+            continue
+        defs = q.local_defs(f)
+        det = q.pos_of(f, _detach_calls(f))
+        srcs = []
+        for i, n in enumerate(f.nodes):
+            if n["k"] == "MemberExpr" and n.get("m") == "str" and n["c"] and f.node_pos(i) is not None:
+                base = q.no_casts(f.r(n["c"][0]))
+                own = base in ("this->data", "data")
+                fresh = bool(re.match(r"^(newData|\w*[nN]ew\w*)$", base))
+                if not fresh:
+                    srcs.append((i, own, base))
+        seen_sources += len(srcs)
+        if not srcs:
+            continue
+        src_ids = {i: (own, base) for i, own, base in srcs}
+        # locals that carry a raw text pointer: some definition's expression contains a source
+        carriers = {}
+        for did, dl in defs.items():
+            for kind, nd, init in dl:
+                if init is None:
+                    continue
+                hit = [x for x in f.desc(init) if x in src_ids]
+                # only pointer-valued flows: `p = data->str (+ k)`, not `n = data->str[0]`
+                if hit and not any(f.nodes[y]["k"] == "ArraySubscriptExpr" or (f.nodes[y]["k"] == "UnaryOperator" and f.nodes[y].get("op") == "*")
+                                   for y in f.desc(init)):
+                    carriers.setdefault(did, []).extend(hit)
+        tested = _nul_tested_names(f)
+        sinks = []   # (node, source ids, description)
+        for did, hit in carriers.items():
+            nm = next((n_["ref"]["n"] for n_ in f.nodes if n_["k"] == "DeclRefExpr" and n_["ref"].get("id") == did), None)
+            if nm in tested:
+                node = next(nd for kind, nd, init in defs[did] if init is not None)
+                sinks.append((node, hit, "local `%s` is walked until `*%s` is zero" % (nm, nm)))
+        for c in q.calls(f):
+            n = f.nodes[c]
+            callee = n.get("callee", "") or ""
+            args = q.call_args(f, c)
+            which = None
+            if callee.split("::")[-1] in LIBC_NUL_SCANNERS and "::" not in callee:
+                which = set(range(len(args)))
+            elif callee in scanned:
+                which = scanned[callee]
+            if which is None:
+                continue
+            for k, a in enumerate(args):
+                if k not in which:
+                    continue
+                hit = []
+                for x in f.desc(a):
+                    nx = f.nodes[x]
+                    if x in src_ids:
+                        hit.append(x)
+                    elif nx["k"] == "DeclRefExpr" and nx["ref"].get("id") in carriers:
+                        hit.extend(carriers[nx["ref"]["id"]])
+                if hit:
+                    sinks.append((c, hit, "argument %d of %s runs to the terminator" % (k + 1, callee)))
+        for node, hit, what in sinks:
+            for h in sorted(set(hit)):
+                own, base = src_ids[h]
+                hp = f.node_pos(h)
+                okd = own and any(f.dominates_pos(d, hp) for d in det)
+                if okd:
+                    chk.ok(rid, f, "raw text read to the terminator after detach()", f.where(node), what, evals=2)
+                else:
+                    chk.bad(rid, f, "raw-text-read-to-terminator:" + base.replace("this->", ""), f.where(node),
+                            "%s, but `%s->str` is the raw text pointer: for a String attached to text that is not NUL-terminated at its "
+                            "length the reader runs past length() (wrong answers, reads beyond the attached range); take the text through "
+                            "the C-string view or after detach()" % (what, base))
+    if seen_sources < 30 or "String::compare" not in scanned:
+        raise AnalysisBroken("C06.k: only %d raw text expressions examined / the NUL-scanner summary lost String::compare" % seen_sources)
+    chk.ok(rid, "String", "%d raw text expressions of %d members followed to their readers" % (seen_sources, len(fs)), "include/nstd/String.hpp", "flow of <payload>->str into NUL-dependent readers", nontrivial=False)
